@@ -9,6 +9,7 @@ fn still(check: &dyn Check, scn: &Scenario, sig: &str, budget: &mut u32) -> Opti
         return None;
     }
     *budget -= 1;
+    let _g = crate::runner::watch(scn);
     let rep = check.evaluate(scn);
     if rep.violations.iter().any(|v| v.sig == sig) {
         Some(rep)
@@ -45,6 +46,7 @@ pub fn minimise(check: &dyn Check, scn: &Scenario, sig: &str) -> (Scenario, Repo
         Some(r) => r,
         None => {
             // not reproducible from the scenario alone (entropy-dependent): keep as is
+            let _g = crate::runner::watch(&best);
             return (best.clone(), check.evaluate(&best));
         }
     };
